@@ -290,23 +290,79 @@ Proof.
   - apply IH; auto. intros c1 c2 H1 H2. apply H; right; assumption.
 Qed.
 
+(* without staging accesses the model's cache totals are monotone over the case's capacities *)
+Lemma model_totals_mono c : c17_wf c = true ->
+  forallb (fun b => no_ties (spec_acc c pin_cache b)) (k_binds c) = true -> has_staging c = false ->
+  non_increasing (map total_reads (map (model_cache c) (k_caps c))) = true.
+Proof.
+  intros W T St. destruct (wf_caps c W) as [Pos Srt]. rewrite map_map.
+  apply non_increasing_map; auto.
+  intros c1 c2 H1 H2 Hle. unfold total_reads.
+  destruct (cache_refines_min c c1 W T) as [_ R1]. destruct (cache_refines_min c c2 W T) as [_ R2].
+  rewrite R1, R2. apply total_reads_mono; auto.
+  rewrite forallb_forall in Pos. specialize (Pos c1 H1). lia.
+Qed.
+
+Lemma region0_cases c : c17_region c = 0 ->
+  k_caps c = [] \/ (forallb (fun b => no_ties (spec_acc c pin_cache b)) (k_binds c) = true
+                    /\ non_increasing (map total_reads (map (model_cache c) (k_caps c))) = true).
+Proof.
+  unfold c17_region. destruct (k_caps c) as [|x l] eqn:E; [left; reflexivity|]. right.
+  destruct (forallb _ (k_binds c)); [|discriminate]. destruct (non_increasing _); [auto|discriminate].
+Qed.
+
+Lemma region2_cases c : c17_region c = 2 ->
+  forallb (fun b => no_ties (spec_acc c pin_cache b)) (k_binds c) = true
+  /\ non_increasing (map total_reads (map (model_cache c) (k_caps c))) = false.
+Proof.
+  unfold c17_region. destruct (k_caps c) as [|x l] eqn:E; [discriminate|].
+  destruct (forallb _ (k_binds c)); [|discriminate]. destruct (non_increasing _); [discriminate|auto].
+Qed.
+
 (* C17_model_meets_spec, unconditional: outside the two known-finding regions the faithful model
    satisfies the whole oracle *)
 Theorem model_meets_spec c : c17_wf c = true -> c17_region c = 0 ->
   c17_holds c (c17_model c) = true.
 Proof.
   intros W R. apply model_meets_region0_mono; auto.
-  destruct (wf_caps c W) as [Pos Srt].
-  destruct (k_caps c) as [|x [|y l]] eqn:Ec; [reflexivity|reflexivity|].
-  assert (T : forallb (fun b => no_ties (spec_acc c pin_cache b)) (k_binds c) = true
-              /\ has_staging c = false).
-  { unfold c17_region in R. rewrite Ec in R.
-    destruct (forallb _ (k_binds c)); [|discriminate]. split; auto.
-    cbn [length Nat.leb andb] in R. destruct (has_staging c); [discriminate|reflexivity]. }
-  destruct T as [T St]. rewrite <- Ec in *. rewrite map_map.
-  apply non_increasing_map; auto.
-  intros c1 c2 H1 H2 Hle. unfold total_reads.
-  destruct (cache_refines_min c c1 W T) as [_ R1]. destruct (cache_refines_min c c2 W T) as [_ R2].
-  rewrite R1, R2. apply total_reads_mono; auto.
-  rewrite forallb_forall in Pos. specialize (Pos c1 H1). lia.
+  destruct (region0_cases c R) as [E|[_ M]]; [rewrite E; reflexivity|exact M].
+Qed.
+
+(* region 2 needs a staging-area access *)
+Theorem region2_needs_staging c : c17_wf c = true -> c17_region c = 2 -> has_staging c = true.
+Proof.
+  intros W R. destruct (region2_cases c R) as [T M].
+  destruct (has_staging c) eqn:St; auto. rewrite (model_totals_mono c W T St) in M. discriminate.
+Qed.
+
+(* in region 2 the model fails the oracle ... *)
+Theorem region2_fails c : c17_region c = 2 -> c17_holds c (c17_model c) = false.
+Proof.
+  intros R. destruct (region2_cases c R) as [_ M].
+  assert (E : vl (vnth 3 (c17_model c)) = map (model_cache c) (k_caps c)) by reflexivity.
+  unfold c17_holds, cache_ok. rewrite E, M. rewrite !andb_false_r. reflexivity.
+Qed.
+
+(* ... but only its monotonicity clause: every other clause holds *)
+Lemma model_cache_one_ok c cap : c17_wf c = true ->
+  forallb (fun b => no_ties (spec_acc c pin_cache b)) (k_binds c) = true ->
+  cache_one_ok c cap (model_cache c cap) = true.
+Proof.
+  intros W T. destruct (cache_refines_min c cap W T) as [Er Rd].
+  unfold cache_one_ok. rewrite (model_bounds_ok c cap W T), Rd, V_eqb_refl.
+  unfold model_cache. fold (cbs c). rewrite Er. cbn [Z.eqb].
+  unfold V_result, vnth. cbn [vl nth length Nat.eqb is_vz]. rewrite V_eqb_refl. reflexivity.
+Qed.
+
+Theorem region2_only_monotone c : c17_wf c = true -> c17_region c = 2 ->
+  V_eqb (vnth 0 (c17_model c)) (spec_filter_V c) = true
+  /\ V_eqb (vnth 1 (c17_model c)) (spec_comb_V c) = true
+  /\ buffet_ok c (vnth 2 (c17_model c)) = true
+  /\ forall cap, In cap (k_caps c) -> cache_one_ok c cap (model_cache c cap) = true.
+Proof.
+  intros W R. destruct (region2_cases c R) as [T _].
+  pose proof (model_meets_filter_combine c W) as FC. apply andb_true_iff in FC. destruct FC as [F C].
+  split; [exact F|]. split; [exact C|]. split.
+  - unfold c17_model, vnth. cbn [vl nth]. apply model_buffet_ok. exact W.
+  - intros cap _. apply model_cache_one_ok; assumption.
 Qed.
